@@ -48,6 +48,11 @@ def corr_layout(chk, r, n):
                 tid = 1
                 for i in range(npts):
                     x, Q2 = float(r.uniform(0.01, 1)), cards.rand_q2(r)
+                    if r.random() < 0.3:
+                        # values whose shortest decimal form has an exponent and no dot, integers stored
+                        # as floats, very small and very large numbers: all must come back as the same float
+                        x = float(r.choice([1e-05, 5e-05, 1e-07, 3e-06, 1.0]))
+                        Q2 = float(r.choice([1e-05, 1e+16, 2.0, 1e+22, 100.0]))
                     nf = r.choice([None, 3, 4, 5])
                     y = float(r.uniform(0.1, 1)) if shape == "xs" else None
                     orders = {}
@@ -83,6 +88,8 @@ def corr_layout(chk, r, n):
                     + "|errors=" + fmt_list(lambda row: fmt_list(lambda t: str(int(t.reshape(-1)[0])), row), op["errors"])
                 )
             back = Output.load_tar(tp)[name]
+            if back is not None and any(isinstance(v_, (str, bytes)) for res_ in back for v_ in (res_.x, res_.Q2, getattr(res_, "y", 0.0))):
+                chk.search_case("tar_loaded_equals_dumped", False, what=f"load_tar(dump_tar(o)): kinematics of a {shape} observable come back as text", data=dict(shape=shape, obs=name, loaded=[(repr(res_.x), repr(res_.Q2)) for res_ in back][:4]))
             if back is None:
                 loaded = "none"
             else:
@@ -128,6 +135,8 @@ def same_output(a, b):
             for ra, rb in zip(a[k], b[k]):
                 if type(ra).__name__ != type(rb).__name__:
                     return f"{k}: class {type(ra).__name__} vs {type(rb).__name__}"
+                if any(isinstance(v_, (str, bytes)) for v_ in (rb.x, rb.Q2, getattr(rb, "y", 0.0))):
+                    return f"{k}: kinematics came back as text ({rb.x!r}, {rb.Q2!r})"
                 if float(ra.x) != float(rb.x) or float(ra.Q2) != float(rb.Q2) or (ra.nf != rb.nf):
                     return f"{k}: kinematics"
                 if hasattr(ra, "y") and float(ra.y) != float(rb.y):
@@ -138,6 +147,8 @@ def same_output(a, b):
                     if not (np.array_equal(ra.orders[o][0], rb.orders[o][0]) and np.array_equal(ra.orders[o][1], rb.orders[o][1])):
                         return f"{k}: values of {o}"
         elif k == "xgrid":
+            if any(isinstance(v_, (str, bytes)) for v_ in b[k]["grid"]):
+                return f"xgrid nodes came back as text: {[v_ for v_ in b[k]['grid'] if isinstance(v_, (str, bytes))][:3]}"
             if not np.array_equal(np.asarray(a[k]["grid"]), np.asarray(b[k]["grid"])) or a[k]["log"] != b[k]["log"]:
                 return "xgrid"
         else:
@@ -178,9 +189,16 @@ def search_real(chk, r, n, max_pto):
             sv = r.random() < 0.5
             # target-mass corrected results carry *signed* propagated errors
             tmc = r.choice([0, 0, 1]) if pto <= 1 and not any(k.split("_")[0] in ("FW",) for k in obs) else 0
+            if i % 3 == 1:
+                tmc = 0
             t = cards.theory(PTO=pto, RenScaleVar=sv, FactScaleVar=sv, TMC=tmc)
             try:
-                out = realrun.run(t, cards.obs(obs, prDIS=process, ProjectileDIS="neutrino" if process == "CC" else "electron", interpolation_xgrid=cards.default_grid(7, 1e-2)))
+                grid_ = cards.default_grid(7, 1e-2)
+                if i % 3 == 1 and tmc == 0:
+                    # a grid reaching down to 1e-5 and a point at x = 5e-05
+                    grid_ = cards.default_grid(8, 1e-05)
+                    next(iter(obs.values())).append(dict(x=5e-05, Q2=30.0, **({"y": 0.5} if next(iter(obs)).split("_")[0] in cards.XS else {})))
+                out = realrun.run(t, cards.obs(obs, prDIS=process, ProjectileDIS="neutrino" if process == "CC" else "electron", interpolation_xgrid=grid_))
             except Exception as e:
                 chk.extra.setdefault("search_exceptions", {})
                 k = f"{type(e).__name__}:{str(e)[:80]}"
